@@ -68,55 +68,36 @@ theorem writeChunks_inv (limit cap : Nat) (chunks : List Nat) :
       obtain ⟨c, d⟩ := ih w1 w' h b
       simp; omega
 
-/-- C18 (writer, repaired): whenever the sink cannot take the whole file — wherever the failing write
-    falls, including only at the final flush — generate reports an error -/
-theorem C18_reported (limit cap : Nat) (chunks : List Nat) (h : chunks.sum > limit) :
-    generate true limit cap chunks = false := by
-  unfold generate
-  cases hw : writeChunks limit cap ⟨0, 0⟩ chunks with
-  | none => rfl
-  | some w =>
-    obtain ⟨a, b⟩ := writeChunks_inv limit cap chunks ⟨0, 0⟩ w hw (by simp)
-    simp only [if_true, flushBuf]
-    have : ¬ (w.written + w.buf ≤ limit) := by simp at a; omega
-    simp [this]
+/-! ### the write loop of `process` -/
 
-/-- D11 as a theorem about the model of the pinned code: a 100-byte service written to /dev/full -/
-theorem C18_counterexample : generate false 0 8192 [40, 60] = true := by decide
+inductive Fault
+  | none                 -- nothing goes wrong
+  | create               -- File::create fails (path occupied by a directory, read-only location, …)
+  | sink (limit : Nat)   -- the sink accepts `limit` bytes in total and then fails (0 = /dev/full)
 
-/-- and no false alarms: when everything fits the repaired code succeeds -/
-theorem C18_ok (limit cap : Nat) (chunks : List Nat) (h : chunks.sum ≤ limit) :
-    generate true limit cap chunks = true := by
-  unfold generate
-  have key : ∀ (ns : List Nat) (w : W), w.buf + w.written + ns.sum ≤ limit →
-      ∃ w', writeChunks limit cap w ns = some w' := by
-    intro ns
-    induction ns with
-    | nil => intro w _; exact ⟨w, rfl⟩
-    | cons n ns ih =>
-      intro w hw
-      simp only [List.sum_cons] at hw
-      have : ∃ w1, writeAll limit cap w n = some w1 ∧ w1.buf + w1.written = w.buf + w.written + n := by
-        unfold writeAll flushBuf
-        by_cases h1 : w.buf + n > cap
-        · have h2 : w.written + w.buf ≤ limit := by omega
-          simp only [h1, if_true, h2, Option.bind_some]
-          by_cases h3 : n ≥ cap
-          · have h4 : w.written + w.buf + n ≤ limit := by omega
-            simp only [h3, if_true, h4]; exact ⟨_, rfl, by simp; omega⟩
-          · simp only [h3, if_false]; exact ⟨_, rfl, by simp; omega⟩
-        · simp only [h1, if_false, Option.bind_some]
-          by_cases h3 : n ≥ cap
-          · have h4 : w.written + n ≤ limit := by omega
-            simp only [h3, if_true, h4]; exact ⟨_, rfl, by simp; omega⟩
-          · simp only [h3, if_false]; exact ⟨_, rfl, by simp; omega⟩
-      obtain ⟨w1, e1, e2⟩ := this
-      obtain ⟨w', e'⟩ := ih w1 (by omega)
-      exact ⟨w', by simp [writeChunks, e1, e']⟩
-  obtain ⟨w, hw⟩ := key chunks ⟨0, 0⟩ (by simpa using h)
-  obtain ⟨a, b⟩ := writeChunks_inv limit cap chunks ⟨0, 0⟩ w hw (by simp)
-  simp only [hw, if_true, flushBuf]
-  have : w.written + w.buf ≤ limit := by simp at a; omega
-  simp [this]
+structure Job where
+  name : List Char       -- service file
+  chunks : List Nat      -- sizes of the pieces handed to the writer (header line, then write_to's writeln!s)
+
+structure Outcome where
+  errors : List (List Char)    -- service paths mentioned in logged errors
+  written : List (List Char)
+  enabled : List (List Char)
+
+/-- generate_service_file: Ok(()) or Err -/
+def writeOne (cap : Nat) (f : Fault) (j : Job) : Bool :=
+  match f with
+  | .none => true
+  | .create => false
+  | .sink l => generate true l cap j.chunks
+
+/-- the loop: a failing unit is recorded and skipped (`continue`), it is not enabled; the others go on -/
+def loopStep (cap : Nat) (o : Outcome) (jf : Job × Fault) : Outcome :=
+  if writeOne cap jf.2 jf.1 then { o with written := o.written ++ [jf.1.name], enabled := o.enabled ++ [jf.1.name] }
+  else { o with errors := o.errors ++ [jf.1.name] }
+
+def runWrites (cap : Nat) (jobs : List (Job × Fault)) : Outcome := jobs.foldl (loopStep cap) ⟨[], [], []⟩
+
+def exitStatus (o : Outcome) : Nat := if o.errors.isEmpty then 0 else 1
 
 end Wr
